@@ -199,10 +199,10 @@ func checkOne(c *core.Ctx, text string, hs, is gen.DataSpec, verbose bool) {
 				modeDep[i] = !eqS(sRef[i], sRef[0])
 			}
 			// oracle 2
-			if class == "" {
+			if class == "" || c.Strict {
 				c.Count("oracle2_compared", 1)
 				for i, m := range modes {
-					if modeDep[i] {
+					if modeDep[i] && !c.Strict {
 						c.Count("oracle2_mode_excluded_by_known:K21", 1)
 						continue
 					}
@@ -240,7 +240,7 @@ func checkOne(c *core.Ctx, text string, hs, is gen.DataSpec, verbose bool) {
 	// oracle 3
 	rendered := false
 	for i, m := range modes {
-		if modeDep[i] {
+		if modeDep[i] && !c.Strict {
 			c.Count("oracle3_mode_excluded_by_known:K21", 1)
 			continue
 		}
@@ -266,7 +266,7 @@ func checkOne(c *core.Ctx, text string, hs, is gen.DataSpec, verbose bool) {
 				c.Hist("marker_location", w.Kind+":"+w.Mode)
 			}
 			if !ok {
-				if w.Kind == "doctype" {
+				if w.Kind == "doctype" && !c.Strict {
 					c.Count("oracle3_excluded_by_known:K16", 1)
 				} else {
 					c.Violation(k, "[marker location, %s] template %q: datum %s of output %q lies in %s, not in a text node or quoted attribute value", m.name, text, in[pos:end+1], rH.Out, w.Kind)
@@ -294,7 +294,7 @@ func run(c *core.Ctx) {
 	nT := c.N(8000, 200000) / c.NShards
 	nA := c.N(6, 12)
 	for i := 0; i < nT; i++ {
-		o := gen.TmplOpts{Lexical: 30, Control: 40, Helpers: 25, Tear: 15, Odd: 20, BadPos: 10, MaxDepth: 3, HelperInAttrOnce: true}
+		o := gen.TmplOpts{Lexical: 30, Control: 40, Helpers: 25, Tear: 15, Odd: 20, BadPos: 10, MaxDepth: 3, HelperInAttrOnce: false}
 		switch i % 5 {
 		case 1:
 			o.Lexical, o.Odd = 70, 40
